@@ -9,7 +9,7 @@
 (* properties are state invariants.                                         *)
 (***************************************************************************)
 EXTENDS Integers, Sequences, FiniteSets, TLC
-CONSTANTS MaxBal, Banks
+CONSTANTS MaxBal, MaxX, Banks
 
 MAddrs == {"a", "b", "c"}
 MAssets == {"PEG", "pUSD", "pX"}
@@ -27,8 +27,9 @@ vars == <<past, cur, rates, wants, bank>>
 RateTables == {[PEG |-> 2, pUSD |-> 1, pX |-> 3], [PEG |-> 1, pUSD |-> 2, pX |-> 0]}
 \* two independent families of initial states (the kernels do not interact)
 ZeroB == [a \in MAddrs |-> [t \in {"pUSD", "pX"} |-> 0]]
-InitStake == /\ past \in [MAddrs -> [{"pUSD", "pX"} -> 0..MaxBal]]
-             /\ cur \in [MAddrs -> [{"pUSD", "pX"} -> 0..MaxBal]]
+BalSet == {b \in [{"pUSD", "pX"} -> 0..MaxBal] : b["pX"] <= MaxX}
+InitStake == /\ past \in [MAddrs -> BalSet]
+             /\ cur \in [MAddrs -> BalSet]
              /\ rates \in RateTables
              /\ wants = [i \in 1..3 |-> 0] /\ bank = 5
 InitBank == /\ past = ZeroB /\ cur = ZeroB
